@@ -47,8 +47,10 @@ func ParseIP(s string) net.IP                               { return net.ParseIP
 var (
 	mu        sync.Mutex
 	listeners = map[string]*listener{} // by port
-	links     []*Link
-	nextPort  atomic.Int64
+	// allListeners: every listener created since Reset (also closed ones)
+	allListeners []*listener
+	links        []*Link
+	nextPort     atomic.Int64
 	// DialHook, when set, decides every dial: return an error to refuse it.
 	DialHook func(addr string) error
 )
@@ -61,8 +63,27 @@ func Reset() {
 	mu.Lock()
 	defer mu.Unlock()
 	listeners = map[string]*listener{}
+	allListeners = nil
 	links = nil
 	DialHook = nil
+}
+
+// CloseAll ends an execution from inside its bubble: every listener is closed
+// (and from now on keeps returning the error, so that well-behaved accept loops
+// end), every link is cut. Goroutines blocked on the in-memory network then
+// return instead of staying behind in a finished bubble.
+func CloseAll() {
+	mu.Lock()
+	ls := append([]*listener(nil), allListeners...)
+	lk := append([]*Link(nil), links...)
+	mu.Unlock()
+	for _, l := range ls {
+		l.Close()
+		l.shutdownOnce.Do(func() { close(l.shutdown) })
+	}
+	for _, k := range lk {
+		k.Cut()
+	}
 }
 
 // Links returns the links created so far, in creation order.
@@ -106,6 +127,9 @@ type listener struct {
 	once   sync.Once
 	// reported: the "closed" error has been returned once
 	reported atomic.Bool
+	// shutdown is closed by CloseAll: Accept then returns the error every time
+	shutdown     chan struct{}
+	shutdownOnce sync.Once
 }
 
 func (l *listener) Accept() (net.Conn, error) {
@@ -118,7 +142,8 @@ func (l *listener) Accept() (net.Conn, error) {
 		// and never let a bubble finish, so only the first call after Close
 		// returns, later ones block for good
 		if l.reported.Swap(true) {
-			select {}
+			// ... until the harness ends the execution (CloseAll)
+			<-l.shutdown
 		}
 		return nil, &net.OpError{Op: "accept", Net: "tcp", Addr: l.a, Err: net.ErrClosed}
 	}
@@ -165,8 +190,9 @@ func Listen(network, address string) (net.Listener, error) {
 	if _, ok := listeners[port]; ok {
 		return nil, &net.OpError{Op: "listen", Net: network, Err: errors.New("bind: address already in use")}
 	}
-	l := &listener{a: addr{net.JoinHostPort(host, port)}, port: port, ch: make(chan net.Conn, 64), closed: make(chan struct{})}
+	l := &listener{a: addr{net.JoinHostPort(host, port)}, port: port, ch: make(chan net.Conn, 64), closed: make(chan struct{}), shutdown: make(chan struct{})}
 	listeners[port] = l
+	allListeners = append(allListeners, l)
 	return l, nil
 }
 
